@@ -6,13 +6,13 @@ open Sekai.Stake Sekai.Util Sekai
 structure D where
   s : S := {}
   p : Params := {}
-  n : Nat := 0
+  n : Nat := 0      -- accounts observed: validators of the genesis first, then the accounts that may claim
 
 def showStatus : Status → String
   | .active => "A" | .inactive => "I" | .paused => "P" | .jailed => "J"
 
 def run (d : D) (op : Op) : D × String :=
-  match Sekai.Stake.step d.p d.s op with
+  match Sekai.Stake.stepC d.p d.s (.base op) with
   | some s' => ({ d with s := s' }, "ok")
   | none => (d, "err")
 
@@ -24,7 +24,12 @@ def step (d : D) (toks : List String) : D × String :=
   match toks with
   | "reset" :: rest =>
     match lookupNat rest "n" with
-    | some n => ({ s := { V := fun v => decide (v < n) }, p := { d.p with nVals := n }, n := n }, "ok")
+    | some n =>
+      -- m (optional): number of observed accounts, the ones from n on have no validator record yet
+      let m := (lookupNat rest "m").getD n
+      ({ s := { V := fun v => decide (v < n), claimed := fun v => decide (v < n),
+                status := fun v => if v < n then .active else .inactive },
+         p := { d.p with nVals := n }, n := m }, "ok")
     | none => (d, "bad-op")
   | ["genesis", v, st] =>
     -- a validator that is NOT active in the imported genesis: the consensus engine is handed only the active ones
@@ -39,6 +44,12 @@ def step (d : D) (toks : List String) : D × String :=
       ({ d with p := { d.p with mischanceConfidence := mc, maxMischance := mm, rankDecrease := rd, inactiveRankPct := pct,
                                 downtimeInactive := dt, minValidators := minv, unjailMaxTime := ujt } }, "ok")
     | _, _, _, _, _, _, _ => (d, "bad-op")
+  | ["claim", v] =>
+    match nat? v with
+    | some v => (match Sekai.Stake.stepC d.p d.s (.claim v) with
+                 | some s' => ({ d with s := s' }, "ok")
+                 | none => (d, "err"))
+    | none => (d, "bad-op")
   | ["pause", v] => match nat? v with | some v => run d (.msgPause v) | none => (d, "bad-op")
   | ["unpause", v] => match nat? v with | some v => run d (.msgUnpause v) | none => (d, "bad-op")
   | ["kpause", v] => match nat? v with | some v => run d (.kPause v) | none => (d, "bad-op")
@@ -55,7 +66,10 @@ def step (d : D) (toks : List String) : D × String :=
     | some v, some sg, some now => run d (.sig v sg now)
     | _, _, _ => (d, "bad-op")
   | ["end"] =>
-    let (ups, r) := endBlock d.n d.s
+    let (ups, r) := endBlockC d.n d.s
+    let sj := joinPending d.n d.s      -- the pending entries are records now, whatever the consensus engine says
+    let nv := ((List.range d.n).filter sj.claimed).length
+    let d := { d with s := sj, p := { d.p with nVals := nv } }
     match r with
     | .ok s' => ({ d with s := s' }, s!"{showUps ups} ok")
     | .error .duplicate => ({ d with s := { d.s with R := fun _ => false, A := fun _ => false } }, s!"{showUps ups} err:duplicate")
@@ -63,6 +77,7 @@ def step (d : D) (toks : List String) : D × String :=
     | .error .emptySet => ({ d with s := { d.s with R := fun _ => false, A := fun _ => false } }, s!"{showUps ups} err:empty")
   | ["obs"] =>
     let vs := (List.range d.n).map fun v =>
+      if !d.s.claimed v then (if d.s.P v then s!"{v}:pending" else s!"{v}:-") else
       s!"{v}:{showStatus (d.s.status v)}:{d.s.rank v}:{d.s.streak v}:{d.s.mischance v}:{d.s.conf v}"
     let q := fun (f : Nat → Bool) => showNatList ((List.range d.n).filter f)
     (d, s!"{" ".intercalate vs} R={q d.s.R} A={q d.s.A} V={q d.s.V}")
